@@ -3,6 +3,7 @@
 package engines
 
 import (
+	"os"
 	"fmt"
 	"strings"
 
@@ -100,6 +101,9 @@ func debugDialogue(args []string) int {
 		return 2
 	}
 	sc := baseScenario(args[0], args[1])
+	if inf := os.Getenv("VERIF_DLG_INFO"); inf != "" {
+		sc.target.Info = inf
+	}
 	o := runOpts{dev: map[int]string{}}
 	for _, a := range args[2:] {
 		var p int
